@@ -113,6 +113,16 @@ type EvIn struct {
 	Kind   string `json:"kind"`   // valid badsig badidx onesign samehash unknown cert
 	Round  uint64 `json:"round"`  // absolute round the evidence talks about
 	Signer int    `json:"signer"` // validator key index
+	Rel    bool   `json:"rel,omitempty"` // Round is an offset to the parent height of the block being built
+}
+
+// ForkIn: a second builder imports the first At blocks of the main chain and
+// builds its own branch on top; the two branches are then handed to further
+// nodes in both orders.
+type ForkIn struct {
+	At         int       `json:"at"`
+	Blocks     []BlockIn `json:"blocks"`
+	Unprepared string    `json:"unprepared,omitempty"` // also try a node that holds the longer branch "stored" only / "raw"
 }
 
 type BlockIn struct {
@@ -139,6 +149,7 @@ type History struct {
 	SideE string `json:"side_e,omitempty"`
 	// number of blocks node D imports the ordinary way before the rest arrives as a fork
 	SideFrom int `json:"side_from,omitempty"`
+	Fork     *ForkIn `json:"fork,omitempty"`
 }
 
 // ---- observations -----------------------------------------------------------
@@ -224,6 +235,7 @@ type BlockObs struct {
 	Incoherent     []string   `json:"-"` // object cache of the carried StateDB versus its own tries
 	SideErr        string     `json:"-"` // error of the real side-chain import path (node D), reported on the first block
 	SideSkipped    bool       `json:"-"`
+	Fork           *ForkObs   `json:"-"`
 	SideEErr       string     `json:"-"`
 	SideEMode      string     `json:"-"`
 	SideLen        int        `json:"-"`
@@ -330,6 +342,8 @@ type World struct {
 	uni      []common.Address
 	ids      map[common.Address]int64
 	A, B, C, D, E *Node
+	forking       bool
+	extra         []*Node
 	be       *backend
 	worker   *miner.VerifWorkerC06
 	pr       *probe
@@ -563,7 +577,7 @@ func (w *World) newNode(name string, probes bool) *Node {
 	w.writeGenesis(n.db)
 	n.eng = &fakeEngine{Solo: solo.NewSolo()}
 	var eng consensus.Engine = n.eng
-	if name == "D" || name == "E" {
+	if name == "D" || name == "E" || strings.HasPrefix(name, "F") {
 		n.ucon = &uconEngine{fakeEngine: n.eng}
 		eng = n.ucon
 	}
@@ -588,7 +602,7 @@ func (w *World) newNode(name string, probes bool) *Node {
 }
 
 func (w *World) stop() {
-	for _, n := range []*Node{w.A, w.B, w.C, w.D, w.E} {
+	for _, n := range append([]*Node{w.A, w.B, w.C, w.D, w.E}, w.extra...) {
 		if n != nil && n.bc != nil {
 			n.bc.Stop()
 		}
@@ -843,12 +857,18 @@ func (w *World) buildBlock(b *BlockIn) (blk *types.Block, o *BlockObs) {
 		}
 		// evidences reach the builder
 		for i := range b.Evs {
-			ev, eo := w.makeEvidence(&b.Evs[i])
+			e := b.Evs[i]
+			if e.Rel {
+				e.Round, e.Rel = o.Number-1+e.Round, false
+			}
+			ev, eo := w.makeEvidence(&e)
 			staking.VerifAddEvidenceC06(w.A.stk, ev)
 			// evidences are gossiped: the importing nodes hold them in their pools too
 			// (nothing on the import path may look at that pool)
-			staking.VerifAddEvidenceC06(w.B.stk, ev)
-			staking.VerifAddEvidenceC06(w.C.stk, ev)
+			if !w.forking {
+				staking.VerifAddEvidenceC06(w.B.stk, ev)
+				staking.VerifAddEvidenceC06(w.C.stk, ev)
+			}
 			_ = eo
 		}
 	}
@@ -1382,4 +1402,219 @@ func (w *World) sideChains(obs []*BlockObs) {
 	w.E = w.newNode("E", false)
 	obs[0].SideEErr, _, _ = w.sideChain(obs, w.E, w.h.SideE)
 	obs[0].SideEMode = w.h.SideE
+}
+
+// ---- forks --------------------------------------------------------------------------
+
+// ForkObs: what happened when two branches from a common ancestor were handed
+// to other nodes in both orders.
+type ForkObs struct {
+	At, MainLen, AltLen int
+	Skipped             string
+	AltCrash            string
+	Problems            []string // violations
+	Unprepared          string   // error of the unprepared node ("" = accepted or not run)
+	UnpreparedMode      string
+	SideBlocks          int
+	Confirmed           int // evidences confirmed in the two branches
+	StakingTxs          int
+}
+
+func stackFn(prefix string) string {
+	for _, ln := range strings.Split(string(debug.Stack()), "\n") {
+		if i := strings.Index(ln, "go-youchain/staking."); i >= 0 && !strings.Contains(ln, "EndBlock") {
+			f := ln[i+len("go-youchain/staking."):]
+			if j := strings.Index(f, "("); j > 0 {
+				f = f[:j]
+			}
+			return prefix + " @" + f
+		}
+	}
+	return prefix
+}
+
+// lookbackOK: the look-back block of every evidence confirmed in the branch
+// lies at or below the fork point (signer resolution reads the canonical chain
+// by number)
+func (w *World) lookbackOK(branch []*types.Block, k int) bool {
+	lb := w.yp.StakeLookBack
+	for _, b := range branch {
+		if len(b.Header().SlashData) == 0 {
+			continue
+		}
+		if num := b.NumberU64(); num-1 > lb && num-1-lb > uint64(k) {
+			return false
+		}
+	}
+	return true
+}
+
+// sideImport hands a branch to a node through the side-chain path.
+func (w *World) sideImport(node *Node, branch []*types.Block, mode string) (res string) {
+	defer func() {
+		if r := recover(); r != nil {
+			res = stackFn(fmt.Sprint("panic: ", r))
+			node.bc = nil
+		}
+	}()
+	if mode != "raw" {
+		for _, b := range branch {
+			if err := node.bc.WriteBlockWithoutState(b); err != nil {
+				return err.Error()
+			}
+			if mode == "indexed" {
+				rawdb.WriteTxLookupEntries(node.db, b)
+			}
+		}
+	}
+	node.ucon.sideOnce = true
+	if err := node.bc.InsertChain(types.Blocks(branch)); err != nil {
+		return err.Error()
+	}
+	return ""
+}
+
+// onCanonical checks that the node's canonical chain ends with the branch, with
+// state, and that its receipts carry the builder's statuses, gas and logs.
+func (w *World) onCanonical(node *Node, branch []*types.Block, recs [][]RecObs, what string, fo *ForkObs) {
+	if node.bc == nil {
+		return
+	}
+	tip := branch[len(branch)-1]
+	if node.bc.CurrentBlock().Hash() != tip.Hash() {
+		fo.Problems = append(fo.Problems, fmt.Sprintf("%s: head is block %d, not the tip %d of the branch", what, node.bc.CurrentBlock().NumberU64(), tip.NumberU64()))
+		return
+	}
+	for i, b := range branch {
+		c := node.bc.GetBlockByNumber(b.NumberU64())
+		if c == nil || c.Hash() != b.Hash() || !node.bc.HasBlockAndState(b.Hash(), b.NumberU64()) {
+			fo.Problems = append(fo.Problems, fmt.Sprintf("%s: block %d of the branch is not canonical with state", what, b.NumberU64()))
+			return
+		}
+		if !sameRecs(recObs(node.bc.GetReceiptsByHash(b.Hash())), recs[i]) {
+			fo.Problems = append(fo.Problems, fmt.Sprintf("%s: receipts of block %d differ from the builder's", what, b.NumberU64()))
+			return
+		}
+	}
+}
+
+func (w *World) forks(obs []*BlockObs) {
+	f := w.h.Fork
+	if f == nil || w.h.Plain || len(obs) == 0 {
+		return
+	}
+	n := 0
+	for n < len(w.blocks) && n < len(obs) && obs[n].Imported && len(obs[n].ReexecDiff) == 0 {
+		n++
+	}
+	fo := &ForkObs{At: f.At}
+	obs[0].Fork = fo
+	k := f.At
+	if k < 0 || k >= n || len(f.Blocks) == 0 {
+		fo.Skipped = "fork point outside the built chain"
+		return
+	}
+	// the second builder
+	a2 := w.newNode("A2", false)
+	w.extra = append(w.extra, a2)
+	if k > 0 {
+		if err := a2.bc.InsertChain(types.Blocks(w.blocks[:k])); err != nil {
+			fo.Problems = append(fo.Problems, "second builder could not import the prefix: "+err.Error())
+			return
+		}
+	}
+	savedA, savedBe, savedWorker := w.A, w.be, w.worker
+	w.A, w.be, w.forking = a2, &backend{bc: a2.bc}, true
+	w.worker = miner.VerifNewWorkerC06(a2.eng, w.be, a2.mux)
+	var alt []*types.Block
+	var altRecs [][]RecObs
+	for i := range f.Blocks {
+		blk, o := w.buildBlock(&f.Blocks[i])
+		if blk == nil {
+			fo.AltCrash = o.Crash
+			break
+		}
+		alt = append(alt, blk)
+		altRecs = append(altRecs, o.Recs)
+		if o.SlashData != "" {
+			fo.Confirmed++
+		}
+		fo.StakingTxs += o.NTx
+	}
+	w.A, w.be, w.worker, w.forking = savedA, savedBe, savedWorker, false
+	mainB := w.blocks[k:n]
+	var mainRecs [][]RecObs
+	for i := k; i < n; i++ {
+		mainRecs = append(mainRecs, obs[i].Recs)
+		if obs[i].SlashData != "" {
+			fo.Confirmed++
+		}
+	}
+	if len(alt) == len(mainB) && len(mainB) >= 2 {
+		mainB, mainRecs = mainB[:len(mainB)-1], mainRecs[:len(mainRecs)-1]
+	}
+	fo.MainLen, fo.AltLen = len(mainB), len(alt)
+	if len(alt) == 0 || len(alt) == len(mainB) {
+		fo.Skipped = "no two branches of different length"
+		return
+	}
+	long, longRecs, short, shortRecs := mainB, mainRecs, alt, altRecs
+	if len(alt) > len(mainB) {
+		long, longRecs, short, shortRecs = alt, altRecs, mainB, mainRecs
+	}
+	if len(long) < 2 {
+		fo.Skipped = "fork shallower than two blocks"
+		return
+	}
+	if len(long) > 8 || !w.lookbackOK(long, k) || !w.lookbackOK(short, k) {
+		fo.Skipped = "fork deeper than 8 blocks or an evidence look-back block inside the fork"
+		return
+	}
+	prefix := types.Blocks(w.blocks[:k])
+	imp := func(node *Node, bs []*types.Block, what string) bool {
+		if len(bs) == 0 {
+			return true
+		}
+		if err := node.bc.InsertChain(types.Blocks(bs)); err != nil {
+			fo.Problems = append(fo.Problems, what+": "+err.Error())
+			return false
+		}
+		return true
+	}
+	// F1: the shorter branch is canonical, the longer arrives as a side chain: verification, re-import, reorg
+	f1 := w.newNode("F1", false)
+	w.extra = append(w.extra, f1)
+	if imp(f1, prefix, "F1 prefix") && imp(f1, short, "F1 ordinary import of the shorter branch") {
+		w.onCanonical(f1, short, shortRecs, "F1 shorter branch", fo)
+		if res := w.sideImport(f1, long, "indexed"); res != "" {
+			fo.Problems = append(fo.Problems, "side first then reorg: the longer branch is refused by the side-chain path: "+res)
+		} else {
+			fo.SideBlocks += len(long)
+			w.onCanonical(f1, long, longRecs, "side first then reorg", fo)
+		}
+	}
+	// F2: the longer branch is imported directly, the shorter arrives as a side chain and stays one
+	f2 := w.newNode("F2", false)
+	w.extra = append(w.extra, f2)
+	if imp(f2, prefix, "F2 prefix") && imp(f2, long, "canonical directly: ordinary import of the longer branch") {
+		w.onCanonical(f2, long, longRecs, "canonical directly", fo)
+		if res := w.sideImport(f2, short, "indexed"); res != "" {
+			fo.Problems = append(fo.Problems, "canonical first: the shorter branch is refused by the side-chain verification: "+res)
+		} else {
+			fo.SideBlocks += len(short)
+			w.onCanonical(f2, long, longRecs, "canonical first, after the side chain", fo)
+		}
+	}
+	// F3: like F1 on a node whose database was not prepared
+	if f.Unprepared != "" && len(fo.Problems) == 0 {
+		f3 := w.newNode("F3", false)
+		w.extra = append(w.extra, f3)
+		fo.UnpreparedMode = f.Unprepared
+		if imp(f3, prefix, "F3 prefix") && imp(f3, short, "F3 shorter branch") {
+			fo.Unprepared = w.sideImport(f3, long, f.Unprepared)
+			if fo.Unprepared == "" {
+				w.onCanonical(f3, long, longRecs, "side first then reorg ("+f.Unprepared+")", fo)
+			}
+		}
+	}
 }
